@@ -22,7 +22,7 @@ import struct
 
 from .. import vloop
 from ..core import Ctx, Violation, hyp_run, shard_run
-from ..tunnelsim import World
+from ..tunnelsim import World, parse_cell
 
 PID = "C05"
 LEVEL = "exploration"
@@ -142,6 +142,70 @@ class Run:
                 self.fail("J4", "build", "path of a ready circuit does not end in an exit entry")
             self.circuits.append(rec)
             self.executed.append(("open", hops))
+        elif kind == "open_under_fire":
+            # a circuit is being built; the answer of its first hop is in flight when a party without any key (it saw
+            # the plaintext create: circuit id and request identifier) sends the originator a made-up created for it
+            if len(live) >= 6:
+                return
+            import random
+            origin = self.members[op[1] % len(self.members)]
+            hops = 1 + op[2] % min(3, len(self.members) - 1)
+            variant = op[4]
+            held, seen = [], {}
+
+            def hook(fl):
+                cell = parse_cell(fl.data, w.prefix)
+                if cell is None or not cell["plaintext"] or "done" in seen:
+                    return None
+                if cell["message"][:1] == b"\x02" and fl.origin is origin.raw_endpoint and "cid" not in seen:
+                    seen["cid"], seen["ident"], seen["hop"] = cell["circuit_id"], cell["message"][1:3], fl.dst
+                    return None
+                if cell["message"][:1] == b"\x03" and fl.dst == origin.address and cell["circuit_id"] == seen.get("cid"):
+                    held.append(fl)
+                    return []
+                return None
+            before_other = self.digest_without({})
+            w.net.on_send = hook
+            try:
+                random.seed(op[3] * 1009 + i * 7919 + 1)
+                circuit = origin.overlay.create_circuit(hops)
+                await w.net.settle()
+                if circuit is None or "cid" not in seen or not held:
+                    w.net.on_send = None
+                    return
+                key = os.urandom([32, 32, 31, 0, 33][variant % 5])
+                auth = os.urandom(32)
+                msg = b"\x03" + seen["ident"] + struct.pack(">H", len(key)) + key + auth + os.urandom((variant >> 3) % 40)
+                cell = w.prefix + b"\x00" + struct.pack(">I", seen["cid"]) + b"\x01\x00" + msg
+                src = seen["hop"] if (variant >> 2) & 1 else ("6.6.6.6", 6000)
+                w.net.inject(src, origin.address, cell, note="made-up created")
+                await w.net.settle()
+                seen["done"] = 1
+                w.net.on_send = None
+                for fl in held:
+                    w.net.inject(fl.src, fl.dst, fl.data, note="genuine created, released")
+                try:
+                    await asyncio.wait_for(asyncio.shield(circuit.ready), 40.0)
+                except asyncio.TimeoutError:
+                    pass
+            finally:
+                w.net.on_send = None
+            if circuit.state != "READY" or circuit.circuit_id not in origin.overlay.circuits:
+                self.fail("J2", "forged_created", f"a made-up created cell ({len(key)}-byte key, from "
+                                                  f"{'the first hop address' if (variant >> 2) & 1 else 'elsewhere'}) for a "
+                                                  f"circuit that was being built ended that circuit: state {circuit.state}, "
+                                                  f"{'still' if circuit.circuit_id in origin.overlay.circuits else 'no longer'} "
+                                                  f"in the originator's table; the genuine answer followed right behind")
+            if before_other != self.digest_without({}):
+                self.fail("J2", "forged_created:collateral", "a made-up created cell changed entries of other circuits")
+            n = len(self.circuits)
+            rec = {"circuit": circuit, "origin": origin, "entries": self.entries_of(w, origin, circuit),
+                   "dest": (f"5.5.{n}.1", 5000 + n), "dead": False, "n": n, "opened": False}
+            if rec["entries"][-1][1] != "exit":
+                self.fail("J4", "build", "path of a ready circuit does not end in an exit entry")
+            self.circuits.append(rec)
+            self.nontrivial = True
+            self.executed.append(("open_under_fire", hops, variant % 5))
         elif kind == "send":
             if not live:
                 return
@@ -633,6 +697,7 @@ def _strategy(max_ops: int):
     op = st.one_of(
         st.tuples(st.just("open"), i, i, i).map(list),
         st.tuples(st.just("open"), i, i, i).map(list),
+        st.tuples(st.just("open_under_fire"), i, i, i, i).map(list),
         st.tuples(st.just("send"), i, i).map(list),
         st.tuples(st.just("burst"), i).map(list),
         st.tuples(st.just("reply"), i, i).map(list),
@@ -667,6 +732,10 @@ def _grid_cases() -> list:
                 ops = [["open", 1, hops - 1, 3], ["open", 2, 2, 6], ["send", 0, 1], ["send", 1, 2]]
                 ops += [["forged_cell", 0, e, v] for v in range(64)]
                 out.append({"nodes": 5, "stack": stack, "ops": ops})
+    for hops in (1, 2, 3):
+        for variant in range(10):
+            out.append({"nodes": 5, "stack": None, "ops": [["open", 1, 1, 3], ["open_under_fire", 2, hops - 1, 5, variant],
+                                                            ["send", 0, 1], ["send", 1, 2]]})
     return out
 
 
